@@ -223,3 +223,18 @@ Lemma c07_scrip_mixed_before_fix_refuted :
 Proof.
   exists [[0; 1; 2; 3]; [2; 3; 4; FILL]], [0; 1; 2; 3; 4], [5; 6; 7; 8; 9]. split; vm_compute; reflexivity.
 Qed.
+
+(* the hypothesis "corner positions pairwise distinct" is needed for the LAST two corners: a face
+   whose last two real corners coincide in position comes back with the repeated corner dropped
+   (the reader cannot tell it from padding by repetition).  Outside the property (degenerate face);
+   stated so that the boundary of C07_scrip_roundtrip is explicit. *)
+Lemma c07_scrip_coinciding_last_corners :
+  exists t lon lat c d,
+    std_tableb 4 t = true /\
+    c07_encode_scrip true t lon lat = Some c /\ c07_read_scrip true true c = Some d /\
+    c07_positions lon lat t = [[(10, 7); (30, 5); (20, 6); (20, 6)]] /\
+    c07_positions (dc_lon d) (dc_lat d) (dc_fnc d) = [[(10, 7); (30, 5); (20, 6)]].
+Proof.
+  exists [[0; 1; 2; 3]], [10; 30; 20; 20], [7; 5; 6; 6]. do 2 eexists.
+  repeat split; vm_compute; reflexivity.
+Qed.
